@@ -30,6 +30,17 @@ pub fn buffer(c: &Case) -> Vec<u8> {
     }
     for (pos, l) in &c.plants {
         let w = HDR_MAGIC.to_le_bytes();
+        // the stored length's top bits select a decoy: 1..=3 leading bytes of the
+        // magic directly in front of the occurrence (a scanner that resumes at the
+        // wrong place after a partial match would skip the real one)
+        let pre = (c.key >> (8 + 2 * (pos % 8))) as usize & 3;
+        if pre > 0 && *pos >= pre && c.key & 1 == 1 {
+            for k in 0..pre {
+                if pos - pre + k < v.len() {
+                    v[pos - pre + k] = w[k];
+                }
+            }
+        }
         for (k, b) in w.iter().enumerate() {
             if pos + k < v.len() {
                 v[pos + k] = *b;
